@@ -18,7 +18,7 @@ RULE = ("schedule = which thread runs at each yield point; yield points are ever
         "pymemcache/pool.py and in PooledClient methods, every socket event of the fake network, and every contended "
         "acquire of the lock injected through lock_generator. Harnesses: (a) ObjectPool with plain objects, 2-3 threads "
         "x 1-3 operations from {get+release, get+destroy, get_and_release ok / raising (destroy or release on fail), "
-        "clear}, max_size 1-3, idle timeout on/off; (b) PooledClient over the fake network, 2-3 threads x 1-3 calls "
+        "clear}, max_size 1-3, idle timeout on/off (with a pool clock that advances at every reading, so idle expiry happens inside the schedule); (b) PooledClient over the fake network, 2-3 threads x 1-3 calls "
         "from {set, get, failing get, quit}, pool size 1-2; (c) as (b) plus a thread calling close(). Enumerated: for "
         "every two-thread one-operation-each configuration, every schedule with <= 1 pre-emption (thorough: <= 2), "
         "both start orders; Hypothesis: choice lists (9:1 towards keep-running) for the larger configurations. Oracle: "
@@ -53,10 +53,15 @@ class Obj:
 
 
 class _ConstTime:
-    def __init__(self, t):
+    """pool clock: constant, or (tick > 0) advancing by `tick` seconds at every reading, so that idle expiry happens
+    inside a schedule deterministically"""
+
+    def __init__(self, t, tick=0):
         self.t = t
+        self.tick = tick
 
     def time(self):
+        self.t += self.tick
         return self.t
 
 
@@ -79,7 +84,7 @@ def run_case(case):
         return lk
 
     saved_time = P.time
-    P.time = _ConstTime(1000.0)
+    P.time = _ConstTime(1000.0, case.get("tick", 0))
     net = None
     try:
         if harness == "a":
@@ -279,6 +284,11 @@ def bounded_cases(tier, seed):
             confs.append({"harness": "a", "threads": [[a], [b]], "max_size": ms, "idle": 0})
     confs.append({"harness": "a", "threads": [["gr"], ["gr"]], "max_size": 3, "idle": 5})
     confs.append({"harness": "a", "threads": [["ctx", "gr"], ["clear"]], "max_size": 2, "idle": 0})
+    # idle expiry inside the schedule: the pool clock advances 3 s per reading, objects idle out after 5 s
+    for ms in (1, 2):
+        confs.append({"harness": "a", "threads": [["gr", "gr"], ["gr", "gr"]], "max_size": ms, "idle": 5, "tick": 3})
+        confs.append({"harness": "a", "threads": [["gr", "ctx"], ["gd", "gr"]], "max_size": ms, "idle": 5, "tick": 4})
+        confs.append({"harness": "b", "threads": [["set", "get"], ["get", "set"]], "max_size": ms, "idle": 5, "tick": 3})
     for a, b in itertools.combinations_with_replacement(OPS_B, 2):
         for ms in (1, 2):
             conf = {"harness": "b", "threads": [[a], [b]], "max_size": ms}
@@ -316,10 +326,11 @@ def bounded_cases(tier, seed):
 def random_strategy(tier):
     choices = st.lists(st.sampled_from([0] * 9 + [1, 2]), max_size=900)
     a = st.fixed_dictionaries({"harness": st.just("a"), "threads": st.lists(st.lists(st.sampled_from(OPS_A), min_size=1, max_size=3), min_size=2, max_size=3),
-                               "max_size": st.sampled_from([1, 2, 3]), "idle": st.sampled_from([0, 5]), "choices": choices, "first": st.integers(0, 2)})
+                               "max_size": st.sampled_from([1, 2, 3]), "idle": st.sampled_from([0, 5]), "tick": st.sampled_from([0, 0, 2, 3, 6]),
+                               "choices": choices, "first": st.integers(0, 2)})
     b = st.fixed_dictionaries({"harness": st.just("b"), "threads": st.lists(st.lists(st.sampled_from(OPS_B), min_size=1, max_size=3), min_size=2, max_size=3),
                                "max_size": st.sampled_from([1, 2]), "fail_recv": st.lists(st.integers(0, 5), max_size=2, unique=True), "choices": choices,
-                               "first": st.integers(0, 2)})
+                               "first": st.integers(0, 2), "idle": st.sampled_from([0, 0, 5]), "tick": st.sampled_from([0, 3, 6])})
     c = st.fixed_dictionaries({"harness": st.just("c"), "threads": st.lists(st.lists(st.sampled_from(OPS_B), min_size=1, max_size=2), min_size=1, max_size=2).map(
         lambda t: t + [["close"]]), "max_size": st.sampled_from([1, 2]), "choices": choices, "first": st.integers(0, 2)})
     return st.one_of(a, b, b, c)
